@@ -24,6 +24,8 @@ TRUSTED = [
     "hand models coq/Syntax/Lexer.v (lexer.rs), Green.v (green.rs, node/mod.rs offsets, generator.rs "
     "new_green width), TokenStream.v (parser.rs token plumbing), tied to /repo's working tree by the "
     "correspondence run only",
+    "the cfg(cairo_verif) op-log hook in cairo-lang-parser (/repo commits 7354470 + b48894d, add-only, logging "
+    "only) and harness/h10/src/hook.rs that turns the log into Coq terms",
     "harness/h10: input generators, Coq term printers, the impl-level oracle (tree walk written from the "
     "property text), the F1 signature matcher that labels the known finding; lib/vlib.py",
     "the grammar code of parser.rs (which op comes next, and that every green handed out is placed in the "
@@ -180,7 +182,7 @@ def run(ctx):
                 "soups from the punctuation/keyword/literal table, 1-3 rounds of char/token/range-level mutation "
                 "of corpus windows (delete, insert noise incl. NUL / form feed / lone CR / non-ASCII, replace, "
                 "swap, duplicate, transplant, unbalance, truncate), truncation at every token boundary of sample "
-                "files, 55 nesting shapes at depths up to 200. Every input is parsed by the real "
+                "files, 50 nesting shapes at depths up to 200. Every input is parsed by the real "
                 "Parser::parse_file in a watched child process and its real SyntaxNode tree is walked by the "
                 "oracle. distinct_nontrivial = number of DISTINCT input texts whose real tree has at least one "
                 "terminal besides EndOfFile (counted by the harness from the walked trees). A subset "
